@@ -117,6 +117,9 @@ BRIDGE = Contract(
         ("shares_registers", "implies(test_node != self and not old(test_node in self._bridged_nodes), " + " and ".join(
             f"self.{r} == test_node.{r}" for r in REGS) + ")"),
         ("adopts_theirs", " and ".join(f"test_node.{r} == old(test_node.{r})" for r in REGS)),
+        ("third_parties_untouched", f"forall({TN}, lambda n: implies(n != self and n != test_node, "
+                                    "n._bridged_nodes == old(n._bridged_nodes) and "
+                                    + " and ".join(f"n.{r} == old(n.{r})" for r in REGS) + "))"),
     ],
     frame=["TestNode._bridged_nodes"] + [f"TestNode.{r}" for r in REGS],
     props=["C09", "C16"],
@@ -195,4 +198,31 @@ GET_DEPENDENCY = Contract(
     result_kind=(Ref("TestNode"), "nullable"),
     frame=[], props=["C06", "C01"],
     assumes=["re.search as an uninterpreted predicate of (pattern, string)"],
+)
+
+
+# ---------------------------------------------------------------- update_restrs (C11): restrictions reach the node once
+import ast as _ast                                                                          # noqa: E402
+
+
+def _update_restrs_body(fn):
+    loops = [n for n in fn.body if isinstance(n, _ast.For)]
+    return loops[0].body if len(loops) == 1 else []
+
+
+OLD_R = "old(self.restrs.get(suffix, ''))"
+PRESENT = f"(restriction.rstrip() in {OLD_R}.splitlines())"
+UPDATE_RESTRS_STEP = Contract(
+    target=f"{NODE}::TestNode.update_restrs", name="TestNode.update_restrs#suffix_step",
+    block=("suffix_step", _update_restrs_body),
+    params={"self": Ref("TestNode"), "suffix": STR, "restriction": STR},
+    requires=["wf_map(self.restrs)"],
+    ensures=[
+        ("restriction_line_appended_unless_present", f"self.restrs[suffix] == ite(restriction != '' and not {PRESENT}, "
+                                                     f"{OLD_R} + restriction, {OLD_R})"),
+        ("other_suffixes_untouched", "forall(STR, lambda s: implies(s != suffix, (s in self.restrs) == old(s in self.restrs) and "
+                                     "implies(s in self.restrs, self.restrs[s] == old(self.restrs[s]))))"),
+    ],
+    frame=["TestNode.restrs"], props=["C11", "C08"],
+    assumes=["extracted block: body of the loop over the given restrictions; str.splitlines / rstrip uninterpreted"],
 )
